@@ -176,4 +176,106 @@ theorem mul_idx_bound' {m n i : Int} (hm : 0 ≤ m) (hi0 : 0 ≤ i) (hi : i < n)
   · positivity
   · nlinarith
 
+/-! ### integer grid core -/
+open HydroVerif.C07
+
+/-- a cell number inside the grid -/
+def InGrid (nrows ncols c : Int) : Prop := 0 ≤ c ∧ c < nrows * ncols
+
+theorem ncols_ne_zero_of_inGrid {nrows ncols c : Int} (h : InGrid nrows ncols c) : ncols ≠ 0 := by
+  rintro rfl
+  simp [InGrid] at h
+  omega
+
+theorem wp_getnxy {ncols idx : Int} {Q : Int × Int → Prop} (h : ncols ≠ 0) (hq : ∀ x, Q x) :
+    wp (getnxy ncols idx) Q := by
+  unfold getnxy
+  wp_lin
+  all_goals first | assumption | exact hq _
+
+/-- `c_coord2cell` for one point: no conversion fault, result `-1` or a cell of the grid -/
+theorem wp_coord2cell1 {nrows ncols : Int} (fx fy : XInt)
+    (hN : nrows * ncols ≤ 9223372036854775807) :
+    wp (coord2cell1 nrows ncols fx fy) (fun c => c = -1 ∨ InGrid nrows ncols c) := by
+  unfold coord2cell1
+  cases fx with
+  | none => cases fy <;> exact wp_pure (Or.inl rfl)
+  | some x =>
+    cases fy with
+    | none => exact wp_pure (Or.inl rfl)
+    | some y =>
+      simp only []
+      refine wp_ite (fun h => ?_) (fun _ => wp_pure (Or.inl rfl))
+      obtain ⟨hx0, hx1, hy0, hy1⟩ := h
+      have b := mul_idx_bound' (m := ncols) (n := nrows) (i := nrows - 1 - y) (by omega) (by omega) (by omega)
+      have b0 := mul_idx_bound' (m := ncols) (n := nrows) (i := 0) (by omega) (by omega) (by omega)
+      have b1 : nrows ≤ nrows * ncols := by nlinarith
+      wp_lin
+      right
+      unfold InGrid
+      omega
+
+theorem wp_neighboursInto {eb : Ext} {b : Buf} {nrows ncols idx : Int} (hb : 9 ≤ eb b)
+    (hr : 0 ≤ nrows) (hc : 0 ≤ ncols) (hN : nrows * ncols ≤ 9223372036854775807) :
+    wp (neighboursInto eb b nrows ncols idx) (fun r => r = none ↔ ¬ InGrid nrows ncols idx) := by
+  unfold neighboursInto
+  have h0 : 0 ≤ nrows * ncols := Int.mul_nonneg hr hc
+  refine wp_bind (wp_i64 ⟨by omega, by omega⟩ ?_)
+  refine wp_ite (fun h => wp_pure ?_) (fun h => ?_)
+  · simp [InGrid]; omega
+  · have hg : InGrid nrows ncols idx := by unfold InGrid; omega
+    refine wp_bind (wp_getnxy (ncols_ne_zero_of_inGrid hg) (fun _ => ?_))
+    wp_lin
+    simp [hg]
+theorem neighbour_inGrid (nrows ncols idx : Int) (k : Nat) :
+    neighbour nrows ncols idx k = -1 ∨ InGrid nrows ncols (neighbour nrows ncols idx k) := by
+  by_cases h : neighbour nrows ncols idx k = -1
+  · exact Or.inl h
+  · exact Or.inr (validCell_iff.1 (neighbour_valid rfl h))
+
+/-- the downstream cell is a sink mark, off-grid mark, or a cell of the grid -/
+theorem downCell_spec (nrows ncols : Int) (code : Nat → Int) (fd idx : Int) :
+    downCell nrows ncols code fd idx = -2 ∨ downCell nrows ncols code fd idx = -1 ∨
+      InGrid nrows ncols (downCell nrows ncols code fd idx) := by
+  unfold downCell
+  split
+  · exact Or.inl rfl
+  · right
+    have key : ∀ (l : List Nat) (d : Int), (d = -1 ∨ InGrid nrows ncols d) →
+        (l.foldl (fun d j => if fd = code j then neighbour nrows ncols idx j else d) d = -1 ∨
+          InGrid nrows ncols (l.foldl (fun d j => if fd = code j then neighbour nrows ncols idx j else d) d)) := by
+      intro l
+      induction l with
+      | nil => intro d hd; simpa using hd
+      | cons j l ih =>
+        intro d hd
+        simp only [List.foldl_cons]
+        apply ih
+        split
+        · exact neighbour_inGrid nrows ncols idx j
+        · exact hd
+    exact key _ _ (Or.inl rfl)
+
+theorem wp_downstream1 {e eb : Ext} {bu bd : Buf} {nrows ncols : Int} {code fdir : Nat → Int} {pos idx : Int}
+    (hr : 0 ≤ nrows) (hc : 0 ≤ ncols) (hN : nrows * ncols ≤ 9223372036854775807)
+    (hfd : nrows * ncols ≤ e .flowdir) (hcode : 9 ≤ e .flowdircode)
+    (hp : 0 ≤ pos) (hbu : pos < eb bu) (hbd : pos < eb bd) :
+    wp (downstream1 e eb bu bd nrows ncols code fdir pos idx)
+      (fun r => (r = none ↔ ¬ InGrid nrows ncols idx) ∧
+        ∀ d, r = some d → d = -2 ∨ d = -1 ∨ InGrid nrows ncols d) := by
+  unfold downstream1
+  have h0 : 0 ≤ nrows * ncols := Int.mul_nonneg hr hc
+  refine wp_bind (wp_acc ⟨hp, hbu⟩ ?_)
+  refine wp_bind (wp_i64 ⟨by omega, by omega⟩ ?_)
+  refine wp_ite (fun h => wp_pure ?_) (fun h => ?_)
+  · refine ⟨by simp [InGrid]; omega, by intro d hd; cases hd⟩
+  · have hg : InGrid nrows ncols idx := by unfold InGrid; omega
+    refine wp_bind (wp_mono (wp_neighboursInto (eb := nbExt) (b := .nbloc) (by simp [nbExt]) hr hc hN) (fun _ _ => ?_))
+    unfold InGrid at hg
+    wp_lin
+    · refine ⟨by simp [InGrid]; omega, ?_⟩
+      intro d hd; cases hd; exact Or.inl rfl
+    · refine ⟨by simp [InGrid]; omega, ?_⟩
+      intro d hd; cases hd; exact downCell_spec _ _ _ _ _
+
 end HydroVerif.C05
